@@ -5,7 +5,7 @@ PROPERTY ImmutableKept
 CHECK_DEADLOCK FALSE
 CONSTANTS
   Kind = "subscriber"
-  Values <- MCValues
+  Values <- MCFewValues
   CanBeDisabled <- MCCanBeDisabled
   MaxOps = 4
-  DefaultValues <- MCNoDefaults
+  DefaultValues <- MCDefaultValues
